@@ -21,6 +21,7 @@ import numpy as np
 import common
 import prox_cases as pc
 import prox_gen as pg
+import prox_translate
 
 PROP = "C02"
 CLAIMED = True
@@ -88,6 +89,16 @@ ASSUMPTIONS = [
 
 KNOWN_L0 = "l0-threshold"
 KNOWN_W32 = "loss-default-weight-float32"
+
+
+def generate(ctx):
+    """translator: tables of the source -> lean/Scico/Generated/ProxTables.lean (flags, defaults, dispatch, bases)"""
+    t = prox_translate.generate()
+    ctx.extra["generated_tables"] = {"classes": len(t["flags"]), "defaults": len(t["defaults"]), "dispatch_rows": len(t["dispatch"]),
+                                     "has_prox_true": [r[1] for r in t["flags"] if r[4] == "True"]}
+    return [("Scico.Generated.ProxTables",
+             "class list with has_eval/has_prox, default arguments (delta, beta, radius, l2_axis, separable, scale, lam, prox_kwargs tol/maxiter, "
+             "cg defaults, band literal of _dep_cubic_root), constructor guards / isinstance dispatch of the losses, Identity<ScaledIdentity<Diagonal")]
 
 
 def _key(case):
@@ -350,6 +361,10 @@ def correspond(ctx, model):
         cg_case(ctx, model, rng)
         if len(ctx.violations) >= 5:
             return
+    # 2f. default constructor arguments / default lam: objects built WITHOUT arguments against the model at the defaults of the table
+    default_cases(ctx, model, rng)
+    if len(ctx.violations) >= 5:
+        return
     # 2e. parameter edge cases (radius <= 0, delta <= 0, scale < 0): the code against the model incl. NaN positions, and the
     #     minimiser property exactly where the Edge theorems assert it
     edge_cases(ctx, model, rng)
@@ -504,6 +519,56 @@ def attr_update_case(ctx, model, rng, fam):
         ctx.disagree(f"prox.{fam}.attr-update.new-signature", dict(_public(new), old_params=case["params"], attr=what),
                      pc._js(p_new_sig), pc._js(p_model), oracle=lambda c: orc(c, p_new_sig),
                      note=f"prox after assigning {what} on the same object (float32 input: signature not seen before)")
+
+
+def default_cases(ctx, model, rng):
+    """objects constructed with their DEFAULT arguments, `prox(v)` called WITHOUT `lam`: compared with the model at the defaults recorded in
+    `Scico.ProxTables.expectedDefaults` (tied to the source by the generated obligation `defaults_ok`)"""
+    import ast as _ast
+
+    import scico.numpy as snp
+    from scico import functional as F
+    from scico import loss
+
+    D = pc.defaults(model)
+    lit = lambda c, p_: _ast.literal_eval(D[(c, p_)])  # noqa: E731
+    sep = lit("HuberNorm.__init__", "separable")
+    plans = [
+        ("hubersep" if sep else "hubernonsep", {"delta": float(lit("HuberNorm.__init__", "delta"))}, lambda y: F.HuberNorm(), "HuberNorm.prox"),
+        ("l1l2", {"beta": float(lit("L1MinusL2Norm.__init__", "beta"))}, lambda y: F.L1MinusL2Norm(), "L1MinusL2Norm.prox"),
+        ("l2ball", {"radius": float(lit("L2BallIndicator.__init__", "radius"))}, lambda y: F.L2BallIndicator(), "L2BallIndicator.prox"),
+        ("l21", {"axis": lit("L21Norm.__init__", "l2_axis")}, lambda y: F.L21Norm(), "L21Norm.prox"),
+        ("l1", {}, lambda y: F.L1Norm(), "L1Norm.prox"), ("l0", {}, lambda y: F.L0Norm(), "L0Norm.prox"),
+        ("l2", {}, lambda y: F.L2Norm(), "L2Norm.prox"), ("sql2", {}, lambda y: F.SquaredL2Norm(), "SquaredL2Norm.prox"),
+        ("sql2loss", {"scale": float(lit("SquaredL2Loss.__init__", "scale")), "A": "none", "rescale": []}, lambda y: loss.SquaredL2Loss(y=y), "SquaredL2Loss.prox"),
+        ("sql2abs", {"scale": float(lit("SquaredL2AbsLoss.__init__", "scale")), "A": "none", "rescale": []}, lambda y: loss.SquaredL2AbsLoss(y=y), "SquaredL2AbsLoss.prox"),
+        ("sql2sqabs", {"scale": float(lit("SquaredL2SquaredAbsLoss.__init__", "scale")), "A": "none", "rescale": []}, lambda y: loss.SquaredL2SquaredAbsLoss(y=y), "SquaredL2SquaredAbsLoss.prox"),
+        ("lossgen", {"scale": float(lit("Loss.__init__", "scale")), "A": "none", "rescale": [], "inner": "l1"}, lambda y: loss.Loss(y=y, f=F.L1Norm()), "Loss.prox"),
+    ]
+    for _ in range(ctx.n(2, 8)):
+        for fam, P, build, proxname in plans:
+            shape = [2, 3] if fam == "l21" else list(pg.pick(rng, [(1,), (3,), (5,), (2, 2)]))
+            n = int(np.prod(shape))
+            case = {"fam": fam, "params": P, "shape": shape, "blocks": None, "cplx": False, "dtype": "float64", "lam": float(lit(proxname, "lam")),
+                    "v": pg.dy(rng, n).tolist(), "stream": "defaults", "w": None}
+            if fam in ("sql2loss", "lossgen"):
+                case["y"] = pg.dy(rng, n).tolist()
+            elif fam in ("sql2abs", "sql2sqabs"):
+                case["y"] = np.abs(pg.dy(rng, n)).tolist()
+            v = pc.flat_value(case, "v")
+            with warnings.catch_warnings():
+                warnings.simplefilter("ignore")
+                y = pc.to_scico(case, np.asarray(case["y"])) if "y" in case else None
+                obj = build(y)
+                p_impl = np.asarray(pc.from_scico(obj.prox(pc.to_scico(case, v))), dtype=np.float64)  # default lam
+                p_model, margin = pc.model_eval(model, dict(case))
+            ctx.count(f"defaults:{fam}")
+            ctx.case(_desc(case), "dflt-" + _key(case))
+            if margin is not None and 0 < margin < 1e-6:
+                continue
+            if p_impl.shape != np.asarray(p_model).shape or not common.allclose(p_impl, np.real(p_model), k=max(n, 1), rtol=1e-9):
+                ctx.disagree(f"prox.{fam}.defaults", _public(case), pc._js(p_impl), pc._js(p_model), oracle=None,
+                             note="object built with its default arguments / prox with the default lam differs from the model at the recorded defaults")
 
 
 def _nan_agree(a, b, rtol=1e-9):
@@ -687,8 +752,9 @@ def cg_case(ctx, model, rng):
     b = v + c * A.T @ (ww * y)
     p = np.linalg.solve(Msys, b)
     r_np = Msys @ x - b
-    tol = float((kw or {}).get("tol", 1e-5))
-    capped = (kw or {}).get("maxiter", 100) < n  # cg may stop before convergence: only the bound of the theorem applies
+    dfl = pc.defaults(model)
+    tol = float((kw or {}).get("tol", float(dfl[("SquaredL2Loss.default_prox_kwargs", "tol")])))
+    capped = (kw or {}).get("maxiter", int(dfl[("SquaredL2Loss.default_prox_kwargs", "maxiter")])) < n  # cg may stop before convergence: only the bound of the theorem applies
     ctx.count("cg:" + ("capped-maxiter" if capped else f"tol={tol:g}") + (":x0" if x0 is not None else "") + (":W" if w is not None else "")
               + "".join(":" + h for h in hist))
     ctx.case({k: desc[k] for k in ("fam", "m", "n", "lam", "params", "prox_kwargs")}, "cg-" + hashlib.sha1(json.dumps(desc, sort_keys=True).encode()).hexdigest()[:16])
